@@ -313,6 +313,16 @@ class QueryPlanner:
 
         return find_selects
 
+    def plan_nested_selects(self, query, find_selects):
+        # plan the nested selects of all clauses of the query and replace them with their results
+        query.targets = query_traversal(query.targets, find_selects)
+        query_traversal(query.where, find_selects)
+        if query.group_by is not None:
+            query.group_by = query_traversal(query.group_by, find_selects)
+        query_traversal(query.having, find_selects)
+        if query.order_by is not None:
+            query.order_by = query_traversal(query.order_by, find_selects)
+
     def plan_select_identifier(self, query):
         # query_info = self.get_query_info(query)
         #
@@ -339,8 +349,7 @@ class QueryPlanner:
         is_api_db = self.integrations.get(main_integration, {}).get('class_type') == 'api'
 
         find_selects = self.get_nested_selects_plan_fnc(main_integration, force=is_api_db)
-        query.targets = query_traversal(query.targets, find_selects)
-        query_traversal(query.where, find_selects)
+        self.plan_nested_selects(query, find_selects)
 
         # get info of updated query
         query_info = self.get_query_info(query)
@@ -523,8 +532,7 @@ class QueryPlanner:
 
         # the outer query runs in the planner, over the result of the inner one: plan its nested selects separately
         find_selects = self.get_nested_selects_plan_fnc(self.default_namespace, force=True)
-        select.targets = query_traversal(select.targets, find_selects)
-        query_traversal(select.where, find_selects)
+        self.plan_nested_selects(select, find_selects)
 
         select2 = copy.deepcopy(select.from_table)
         select2.parentheses = False
